@@ -11,7 +11,7 @@ from scipy.sparse import csr_matrix
 from panqec import bpauli
 from panqec import bsparse
 
-REPS = ['list', 'uint8', 'int8', 'int64', 'uint64', 'csr']
+REPS = ['list', 'uint8', 'int8', 'int64', 'uint64', 'csr', 'csr0']
 
 
 def conv(v, rep, two_d):
@@ -25,6 +25,16 @@ def conv(v, rep, two_d):
         if a.ndim == 1:
             a = a.reshape(1, -1)
         return csr_matrix(a.astype('uint8'))
+    if rep == 'csr0':
+        # the same matrix with explicitly STORED zeros (left behind by `m.data %= 2` after an addition)
+        if a.ndim == 1:
+            a = a.reshape(1, -1)
+        a = a.astype('uint8')
+        b = np.zeros_like(a)
+        b[:, ::2] = 1
+        m = (csr_matrix(b) + csr_matrix((a + b) % 2)).tocsr()      # = a + 2b
+        m.data %= 2
+        return m
     return a.astype(rep)
 
 
